@@ -558,7 +558,7 @@ def handover_enum_runner(mod, facet, tier, seed, shard, nshards, stats):
     # a full buffer: the logging thread is preempted at k, the adder gets as far as some point of its re-delivery, the
     # logging thread finishes, the adder finishes
     for k in range(0, 34):
-        for j in (30, 70):
+        for j in (30, 70) if tier == "thorough" else (30,):
             cases.append({"pre": 1000, "ndest": 1, "plan": [[k, 1], [j, 0], [10**6, 1], [10**6, 0]], "loggers": [[1, 0]]})
     # bytecode granularity: either thread preempted before every instruction, once
     for pre in (0, 1):
